@@ -28,6 +28,25 @@ def _known_with_proposed(pid):
 vlib.known_findings = _known_with_proposed
 
 
+_orig_eval = vlib.coq_eval_cases
+
+
+def _eval_with_retry(ctx, *a, **k):
+    """A coqc shard that dies without any output was killed from outside (observed twice on the shared,
+    memory-loaded build machine); that says nothing about the cases: evaluate once more before
+    reporting a broken correspondence."""
+    try:
+        return _orig_eval(ctx, *a, **k)
+    except vlib.Broken as b:
+        if (b.detail or "").strip():
+            raise
+        ctx.notes.append("a coqc shard died without output (killed); case evaluation repeated once")
+        return _orig_eval(ctx, *a, **k)
+
+
+vlib.coq_eval_cases = _eval_with_retry
+
+
 class P(vlib.Prop):
     pid = "C13"
     coq_dirs = ["Common", "C13", "Generated"]
@@ -37,12 +56,15 @@ class P(vlib.Prop):
     instance_obligations = []
     harness_module = "C13.Harness"
     case_type = "vcase"
+    check_fn = "check_all"      # agreement with the model AND the clause checkers on the observation
     shard = 60
     harnesses = [
         vlib.Harness("walk", "confmap/xconfmap", ".", {"zz_verif_c13_test.go": "C13/walk_test.go"},
                      "^TestVerifC13Walk$", "xconfmap"),
         vlib.Harness("cfg", "otelcol", ".", {"zz_verif_c13_test.go": "C13/cfg_test.go"},
                      "^TestVerifC13Cfg$", "otelcol"),
+        vlib.Harness("reload", "otelcol", ".", {"zz_verif_c13_reload_test.go": "C13/reload_test.go"},
+                     "^TestVerifC13Reload$", "otelcol"),
         vlib.Harness("decode", "cmd/otelcorecol", ".",
                      {"zz_verif_c13_test.go": "C13/decode_test.go",
                       "zz_verif_c13_faithful_test.go": "C13/faithful_test.go",
@@ -68,7 +90,8 @@ class P(vlib.Prop):
             "random valid values and read back from the typed struct and the effective configuration. "
             "Instances are unnamed or named (type/name) and always have a sibling instance of the same type; kind-mismatch "
             "writes; reloads of the effective configuration. notify: Extensions.NotifyConfig with 1-4 extensions whose "
-            "ConfigWatchers merge changes into the Conf they are handed. "
+            "ConfigWatchers merge changes into the Conf they are handed. reload: a real Collector (nop components + a ConfigWatcher "
+            "extension) started and reloaded 1-3 times by SIGHUP over generated configurations. "
             "A case is non-trivial when an error is reported / a key is written / two watchers are notified; distinct = distinct case terms.")
     trusted_base = [
         "Coq 8.16.1 kernel + vm_compute (coqc); no axioms (Print Assumptions: closed under the global context)",
@@ -89,6 +112,25 @@ class P(vlib.Prop):
         "their strictness is checked by the direct oracle only",
         "faithfulness model covers plain leaves (bool, integer, float, string, duration) under struct / squash / non-nil pointer nesting",
     ]
+
+    def extra_checks(self, ctx):
+        """Failing-input search (DESIGN 2.5): for every case that failed check_all, decide the property's
+        clauses on the OBSERVED behaviour (Harness.prop_clause, sound by ProofsC.v).  A violated clause
+        makes the case a concrete failing input (reported like a direct-oracle failure, kind
+        clause-violated); a disagreement that violates no clause stays a model disagreement."""
+        import re
+        seen = set()
+        for m in ctx.mismatches[:12]:
+            if len(m["term"]) > 200000:
+                continue
+            r = vlib.coq_eval_term(ctx, self.harness_module, "prop_clause %s" % m["term"])
+            mm = re.search(r'Some\s+"(.*?)"', r)
+            if mm and mm.group(1) not in seen:
+                seen.add(mm.group(1))
+                ctx.oracle.append({"kind": "clause-violated", "term": m["term"], "harness": m["harness"],
+                                   "detail": "the observed behaviour violates the clause: " + mm.group(1)})
+        ctx.notes.append("clause checkers evaluated on every case (check_all); %d disagreeing case(s) examined, "
+                         "%d violate a clause" % (min(len(ctx.mismatches), 12), len(seen)))
 
     def translate(self, ctx):
         # T1 (go2coq): the loop-free decision code of the anchored files, re-read from the source on every run
